@@ -434,3 +434,60 @@ func isNilConst(v ssa.Value) bool {
 	c, ok := v.(*ssa.Const)
 	return ok && c.IsNil()
 }
+
+// liftedCall: a call of some callee seen from a root function: Root is the instruction in the root
+// (or one of its closures) - the call itself, or the call of a folded single-site helper in which
+// the callee is called on every path; Inner is the actual call instruction.
+type liftedCall struct {
+	Root, Inner ssa.Instruction
+	Helper      *ssa.Function
+}
+
+func (w *World) callsLifted(root *ssa.Function, callee interface{}) []liftedCall {
+	var out []liftedCall
+	for _, ins := range w.CallsIn(root, callee, true) {
+		out = append(out, liftedCall{ins, ins, nil})
+	}
+	for _, g := range w.Region[root] {
+		site := singleSite[g]
+		if site == nil || g.Parent() != nil || len(g.Blocks) == 0 {
+			continue
+		}
+		for _, ins := range w.CallsIn(g, callee, false) {
+			first := g.Blocks[0].Instrs[0]
+			if ok, _ := MustPass(first, func(i ssa.Instruction) bool { return i == ins }); !ok && first != ins {
+				continue
+			}
+			// lift through nested helpers up to the root
+			rootIns := site
+			for depth := 0; depth < 3 && rootIns != nil && enclosingNamed(rootIns.Parent()) != root; depth++ {
+				rootIns = singleSite[enclosingNamed(rootIns.Parent())]
+			}
+			if rootIns != nil {
+				out = append(out, liftedCall{rootIns, ins, g})
+			}
+		}
+	}
+	return out
+}
+
+// argAtRoot: the idx-th argument of the inner call in the root's vocabulary: the helper's
+// parameters are already bound to the root's arguments (paramBind); a value the helper builds and
+// returns is the value of the helper call in the root.
+func (w *World) argAtRoot(lc liftedCall, idx int) *Term {
+	c := callInstrCommon(lc.Inner)
+	t := w.TS.Of(c.Args[idx])
+	if lc.Helper == nil {
+		return t
+	}
+	returnsIt := false
+	eachInstr([]*ssa.Function{lc.Helper}, func(_ *ssa.Function, ins ssa.Instruction) {
+		if r, ok := ins.(*ssa.Return); ok && len(r.Results) == 1 && termEq(w.TS.Of(r.Results[0]), t) {
+			returnsIt = true
+		}
+	})
+	if v, ok := lc.Root.(ssa.Value); ok && returnsIt {
+		return w.TS.Of(v)
+	}
+	return t
+}
